@@ -564,6 +564,19 @@ func (g *genState) wide(q Tuple, k int) []Tuple {
 	var out []Tuple
 	n := g.cfg.FindNS(q.NS)
 	rel := "r0"
+	// the wide node's children are subject sets n:w_i#r0: the relation has to be
+	// declared to hold them, or strict mode (rightly) never follows them
+	if rd := n.FindRel(rel); rd != nil && rd.Rewrite == nil && g.cfg.Enc != EncNone {
+		has := false
+		for _, ty := range rd.Types {
+			if ty.NS == n.Name && ty.Rel == rel {
+				has = true
+			}
+		}
+		if !has {
+			rd.Types = append(rd.Types, TypeRef{NS: n.Name, Rel: rel})
+		}
+	}
 	for i := 0; i < k; i++ {
 		out = append(out, Tuple{NS: q.NS, Obj: q.Obj, Rel: rel, Sub: Subject{Set: &SetRef{NS: n.Name, Obj: fmt.Sprintf("w%d", i), Rel: rel}}})
 	}
